@@ -164,6 +164,9 @@ def reference(case):
             rows.append({fv: Fraction(1)})
             zeros += 1
     stats["zero_defaults"] = zeros
+    conns_all = {c_ for c_, _ in allflows}
+    stats["prefix_unconnected"] = sum(1 for u in conns_all if u not in mentioned
+                                      and any(u.startswith(m_) for m_ in mentioned))
     stats["flow_vars"] = len(allflows)
     return rows, passthrough, stats
 
@@ -384,8 +387,30 @@ def gen_connectors(rng):
     return out
 
 
+# name pools in which some names are plain string prefixes of others (p / p1 / p10 / pa, a / ab / abc,
+# a connector named like the beginning of a component's name): a flattened name must be matched
+# exactly, never by startswith()
+LEAF_POOL = ["p", "p1", "p10", "pa", "n", "n1", "nb", "r", "r2"]
+MID_POOL = ["c", "c1", "c10", "ca", "d", "d1", "o", "o1", "o10", "oa"]
+TOP_POOL = ["a", "ab", "abc", "a1", "b", "b1", "b10", "t", "t1", "t10", "ta", "s", "s1", "e", "e2"]
+
+
+def draw_names(rng, pool, k):
+    """k distinct names; after the first, with probability 0.65 a name that is a string prefix or an
+    extension of one already drawn"""
+    left = list(pool)
+    out = [left.pop(rng.randrange(len(left)))]
+    while len(out) < k:
+        rel = [x for x in left if any(x.startswith(y) or y.startswith(x) for y in out)]
+        x = rng.choice(rel) if rel and rng.random() < 0.65 else rng.choice(left)
+        left.remove(x)
+        out.append(x)
+    return out
+
+
 def gen_leaf(rng, name, connectors, nconn):
-    cn = ["p", "n", "r"]
+    cn = draw_names(rng, LEAF_POOL, nconn)
+    rng.shuffle(cn)
     conns = [[cn[i], rng.choice(list(connectors))] for i in range(nconn)]
     c = {"name": name, "conns": conns, "subs": [], "reals": [], "body": []}
     if rng.random() < 0.3:
@@ -463,11 +488,14 @@ def gen_case(rng, shape=None):
         deep = rng.random() < 0.25
         for mi in range(2 if deep else 1):
             m = {"name": "Sub%d" % (mi + 1), "conns": [], "subs": [], "reals": [], "body": []}
-            for j in range(rng.randint(1, 3)):
+            nsub, ncon = rng.randint(1, 3), rng.randint(1, 2)
+            mnames = draw_names(rng, MID_POOL, nsub + ncon)
+            rng.shuffle(mnames)
+            for j in range(nsub):
                 pool = leaves if not (deep and mi == 1 and j == 0) else [mids[0]]
-                m["subs"].append(["c%d" % (j + 1), rng.choice(pool)["name"]])
-            for j in range(rng.randint(1, 2)):
-                m["conns"].append(["o%d" % (j + 1), rng.choice(list(connectors))])
+                m["subs"].append([mnames[j], rng.choice(pool)["name"]])
+            for j in range(ncon):
+                m["conns"].append([mnames[nsub + j], rng.choice(list(connectors))])
             tab[m["name"]] = m
             add_connects(rng, connectors, tab, m, rng.choice(SHAPES), p_level=0.85)
             finish_class(rng, m)
@@ -476,16 +504,19 @@ def gen_case(rng, shape=None):
     top = {"name": "M", "conns": [], "subs": [], "reals": [], "body": []}
     target = rng.randint(2, 7)
     have = 0
-    names = iter("abcdefgh")
+    ntop = rng.choice([0, 0, 1, 1, 2, 3])
+    allnames = draw_names(rng, TOP_POOL, 12)
+    tnames = rng.sample(allnames[:6], ntop)
+    names = iter([x for x in allnames if x not in tnames])
     if mids:
-        top["subs"].append(["s", mids[-1]["name"]])
+        top["subs"].append([next(names), mids[-1]["name"]])
         have += len(mids[-1]["conns"])
     while have < target:
         lf = rng.choice(leaves)
         top["subs"].append([next(names), lf["name"]])
         have += len(lf["conns"])
-    for j in range(rng.choice([0, 0, 1, 1, 2, 3])):
-        top["conns"].append(["t%d" % (j + 1), rng.choice(list(connectors))])
+    for j in range(ntop):
+        top["conns"].append([tnames[j], rng.choice(list(connectors))])
     tab["M"] = top
     add_connects(rng, connectors, tab, top, shape)
     finish_class(rng, top)
@@ -496,19 +527,21 @@ def gen_case(rng, shape=None):
 
 
 def small_orders(nedges):
-    """every ordered, oriented sequence of `nedges` connects over the endpoints a.p, a.n, b.p, t
-    (one connector class with one potential and one flow; t is a top-level, outside connector)"""
-    eps = [("a", "p"), ("a", "n"), ("b", "p"), (None, "t")]
+    """every ordered, oriented sequence of `nedges` connects over the endpoints a.p, a.p1, ab.p, t
+    (one connector class with one potential and one flow; t is a top-level, outside connector; the
+    top-level connector t1 is never connected; names are string prefixes of one another on purpose)"""
+    eps = [("a", "p"), ("a", "p1"), ("ab", "p"), (None, "t")]
     oriented = [(x, y) for x in eps for y in eps if x != y]
     out = []
     for seq in itertools.product(oriented, repeat=nedges):
         case = {"connectors": {"Pin": [["v", "pot"], ["i", "flow"]]},
                 "classes": [
-                    {"name": "C", "conns": [["p", "Pin"], ["n", "Pin"]], "subs": [], "reals": [], "body": [],
-                     "decl_order": [["p", "Pin"], ["n", "Pin"]]},
-                    {"name": "M", "conns": [["t", "Pin"]], "subs": [["a", "C"], ["b", "C"]], "reals": [],
+                    {"name": "C", "conns": [["p", "Pin"], ["p1", "Pin"]], "subs": [], "reals": [], "body": [],
+                     "decl_order": [["p", "Pin"], ["p1", "Pin"]]},
+                    {"name": "M", "conns": [["t", "Pin"], ["t1", "Pin"]], "subs": [["a", "C"], ["ab", "C"]],
+                     "reals": [],
                      "body": [["connect", list(x), list(y)] for x, y in seq],
-                     "decl_order": [["a", "C"], ["b", "C"], ["t", "Pin"]]}],
+                     "decl_order": [["a", "C"], ["ab", "C"], ["t", "Pin"], ["t1", "Pin"]]}],
                 "top": "M", "shape": "exhaustive%d" % nedges}
         case["text"] = render(case)
         out.append(case)
@@ -644,7 +677,8 @@ def run(ctx):
                 agg[k] = max(agg.get(k, 0), v)
             else:
                 agg[k] = agg.get(k, 0) + v
-        for flag in ("merges", "redundant", "mixed_sets", "outside_only_sets", "zero_defaults"):
+        for flag in ("merges", "redundant", "mixed_sets", "outside_only_sets", "zero_defaults",
+                     "prefix_unconnected"):
             if st[flag]:
                 agg["cases_with_" + flag] = agg.get("cases_with_" + flag, 0) + 1
         if st["levels"] >= 2 and any(x["body"] and x["name"] != "M" and x["subs"] for x in c["classes"]):
@@ -689,7 +723,7 @@ def run(ctx):
                        "1-2 nested component levels with own pass-through connectors and inner connects, 2-7 "
                        "component connectors + 0-3 top-level connectors; connect graphs by shape (chain, star, cycle, "
                        "redundant, merge of separate sets, disjoint pairs then join, random), random clause order and "
-                       "orientation (%d); every ordered oriented sequence of 1-2 connects%s over {a.p,a.n,b.p,t} (%d); "
+                       "orientation (%d); every ordered oriented sequence of 1-2 connects%s over {a.p,a.p1,ab.p,t} with t1 unconnected (%d); connector and component names drawn from pools in which some names are string prefixes of others (p/p1/p10/pa, a/ab/abc, c/c1/c10, t/t1/t10) at every level; "
                        "corpus (%d).  non-trivial = at least 2 connect clauses; distinct = distinct text"
                        % (n_rand, " and 3 connects" if ctx.tier == "thorough" else " + 40 sampled sequences of 3",
                           len(ex), n_corpus))
@@ -703,6 +737,8 @@ def run(ctx):
         "connectors and connects of elementary Reals are outside the model and the generator",
         "equation order and operand order are not compared (multisets of canonical linear forms); the parse of flat "
         "equations into linear rows and the name splitting at '.' are trusted harness code",
+        "Coq names are lists of identifiers, so confusing a name with a string prefix of it (port1 / port10) cannot "
+        "be expressed in the model; string-level naming is covered by the oracle and the correspondence only",
         "third sentence of the property read literally: a flow variable that appears in a connection at ANY level "
         "(e.g. as outside connector inside its own component class) gets no zero equation",
     ]
